@@ -28,6 +28,9 @@ pub fn silence_panics() {
   std::panic::set_hook(Box::new(|_| {}));
 }
 
+/// seconds a single isolated case may take before it is killed (set GBV_CASE_TIMEOUT to change)
+pub static mut CASE_TIMEOUT_S: u32 = 10;
+
 /// Result of running cases in isolated child processes.
 pub struct Isolated {
   /// lines produced by the children (complete up to every confirmed marker)
@@ -52,6 +55,7 @@ pub fn run_isolated_max<F: FnMut(usize, &mut Vec<u8>)>(n: usize, max_crashes: us
   let mut lines: Vec<String> = Vec::new();
   let mut crashes: Vec<(usize, i32)> = Vec::new();
   let mut truncated = false;
+  let mut timeouts = 0usize;
   let progress = unsafe {
     libc::mmap(std::ptr::null_mut(), 4096, libc::PROT_READ | libc::PROT_WRITE,
       libc::MAP_SHARED | libc::MAP_ANONYMOUS, -1, 0) as *mut i64
@@ -79,7 +83,11 @@ pub fn run_isolated_max<F: FnMut(usize, &mut Vec<u8>)>(n: usize, max_crashes: us
       for i in next..n {
         if crashes.iter().any(|c| c.0 == i) { continue; }
         unsafe { std::ptr::write_volatile(progress, i as i64); }
+        // watchdog: a case that does not return (e.g. a frame-stepping loop that never ends) is killed
+        // by SIGALRM and attributed to this case like any other crash
+        unsafe { libc::alarm(CASE_TIMEOUT_S); }
         f(i, &mut buf);
+        unsafe { libc::alarm(0); }
         buf.extend_from_slice(format!("#D {}\n", i).as_bytes());
         if buf.len() > (1 << 15) { flush(&mut buf); }
       }
@@ -124,7 +132,9 @@ pub fn run_isolated_max<F: FnMut(usize, &mut Vec<u8>)>(n: usize, max_crashes: us
       break;
     }
     crashes.push((crashed as usize, status));
-    if crashes.len() >= max_crashes { truncated = true; break; }
+    if libc::WIFSIGNALED(status) && libc::WTERMSIG(status) == libc::SIGALRM { timeouts += 1; }
+    // two cases that never return are enough evidence; waiting for more would stall the check
+    if crashes.len() >= max_crashes || timeouts >= 2 { truncated = true; break; }
     next = match last_done { Some(d) => d + 1, None => next };
     // the crasher itself is skipped by the child loop; make sure we advance past it
     if next == crashed as usize { next += 1; }
@@ -134,7 +144,9 @@ pub fn run_isolated_max<F: FnMut(usize, &mut Vec<u8>)>(n: usize, max_crashes: us
 }
 
 pub fn describe_status(status: i32) -> String {
-  if libc::WIFSIGNALED(status) {
+  if libc::WIFSIGNALED(status) && libc::WTERMSIG(status) == libc::SIGALRM {
+    "timeout (did not return)".to_string()
+  } else if libc::WIFSIGNALED(status) {
     format!("signal {}", libc::WTERMSIG(status))
   } else if libc::WIFEXITED(status) {
     format!("exit {}", libc::WEXITSTATUS(status))
